@@ -191,6 +191,16 @@ func (e *encoder) enc(v starlark.Value) obj {
 			xs = append(xs, []any{n, e.enc(a)})
 		}
 		return obj{"t": "struct", "v": xs}
+	case *hostObj:
+		if r, _ := e.cyc(v); r != nil {
+			return r
+		}
+		defer e.uncyc(v)
+		xs := [][]any{}
+		for i, n := range v.names {
+			xs = append(xs, []any{n, e.enc(v.vals[i])})
+		}
+		return obj{"t": "obj", "v": xs}
 	default:
 		if v.Type() == "range" {
 			if seq, ok := v.(starlark.Indexable); ok {
